@@ -1,7 +1,7 @@
 (* C02 — comparison of a decoded real certificate with the model's certdesc (used by the
    generated case file CasesC02.v; executable definitions only) *)
 From Coq Require Import ZArith.
-From KM Require Import Base.Bytes Model.Auth Model.Certgen Model.CertgenCases.
+From KM Require Import Base.Bytes Model.Auth Model.Certgen Model.CertgenCases Model.CertgenEnv.
 From KM Require Proofs.CertgenSpec.
 From KM Require Model.Seal.
 Open Scope N_scope.
@@ -83,6 +83,9 @@ Record c02case := {
   k_expansions : list (bs * (option bs));     (* the shell-expansion oracle for this user *)
   k_groups : option (list bs); k_methods : option (list bs);   (* what the directory answers for this user *)
   k_user : bs; k_target : bs; k_type : N; k_key : option (N * bool); k_add_groups : bool;
+  k_env : environ;                            (* the variables set in the daemon's process environment while the request
+                                                 was served (named like the variables the configured templates use,
+                                                 with foreign values); no input of certgen_env *)
   k_obs : observed }.
 
 Fixpoint lookup_opt (m : list (bs * option bs)) (k : bs) : option bs :=
@@ -108,7 +111,9 @@ Definition c02_outcome (c : c02case) : outcome :=
               q_cookie := Some (with_claims (tok 1 bU2F) (issuer_of st) [issuer_of st]); q_basic := None;
               q_target := k_target c; q_type := type_of_index (k_type c); q_form_ok := true;
               q_key := k_key c; q_add_groups := k_add_groups c |} in
-  certgen (fun t _ => lookup_opt (k_expansions c) t) st 0%Z true q.
+  (* k_expansions is shell.Expand on every template string under the mapper that knows the authenticated user
+     only; the handler runs in a daemon whose environment is k_env c (Model/CertgenEnv.v certgen_env) *)
+  certgen_env (fun _ t => lookup_opt (k_expansions c) t) (k_env c) st 0%Z true q.
 
 (* the model's signer is among what the model's server publishes (SSH: KeymasterPublicKeys,
    X.509: caCertDer) - always true by c02_binding, evaluated all the same *)
